@@ -2,13 +2,9 @@
 fn gcd_ext_large(mut lhs: Buffer, mut rhs: Buffer) -> (Repr, Repr, Repr)
 /*@
     requires large_wf(lhs@), large_wf(rhs@),        // from the call sites: the words of two `Large` operands
-        lhs@.len() + 1 < max_capacity(), rhs@.len() + 1 < max_capacity(),      // resource: room for the top quotient word
-        // KNOWN DEFECT excluded (reported; see engine/registry_d/gcd_order.py): when the smaller operand DIVIDES the larger
-        // one and is more than two words shorter, the residue buffer is shorter than the divisor and
-        // div::div_rem_in_place panics (`assertion failed: lhs.len() >= rhs.len() && rhs.len() >= 2`),
-        // e.g. gcd_ext(2^320, 2^128)
-        (val(lhs@) % val(rhs@) != 0 && val(rhs@) % val(lhs@) != 0)
-            || (lhs@.len() <= rhs@.len() + 2 && rhs@.len() <= lhs@.len() + 2),
+        // resource bound + KNOWN DEFECT excluded (reported; see lib/gcdo_ops_stubs.rs gcd_ext_large_pre and
+        // engine/registry_d/gcd_order.py): gcd_ext(2^320, 2^128) trips an assertion of the division
+        gcd_ext_large_pre(lhs@, rhs@),
     ensures repr_gcd_ext_post(val(lhs@), val(rhs@), ret.0.v(), ret.1.v(), ret.2.v()),
 @*/
 {
@@ -59,7 +55,7 @@ fn gcd_ext_large(mut lhs: Buffer, mut rhs: Buffer) -> (Repr, Repr, Repr)
 
     // actual computation
     let (g_len, b_len, b_sign) = gcd::gcd_ext_in_place(&mut lhs, &mut rhs, &mut memory);
-    /*@ let ghost gv = valn(rhs@, g_len as int); let ghost bm = valn(lhs@, b_len as int); let ghost bl = b_len as int; @*/
+    /*@ let ghost gv = val(rhs@.subrange(0, g_len as int)); let ghost bm = val(lhs@.subrange(0, b_len as int)); let ghost bl = b_len as int; @*/
     /*@ let ghost rhs1 = rhs@; let ghost lhs1 = lhs@; @*/
 
     // the result from the internal function is g = gcd(lhs, rhs), b s.t g = b*rhs mod lhs
@@ -70,8 +66,6 @@ fn gcd_ext_large(mut lhs: Buffer, mut rhs: Buffer) -> (Repr, Repr, Repr)
     let b = lhs;
     /*@ let ghost m = lemma_gcdo_residue(l, r, gv, b_sign, bm); @*/
     /*@ proof {
-        lemma_valn_ext(rhs1, g@, g_len as int);
-        lemma_valn_ext(lhs1, b@, bl);
         assert(val(g@) == gv && val(b@) == bm);
         lemma_valn_bound(b@, bl); lemma_valn_bound(g@, g_len as int);
         lemma_gcdo_div_le(gv, r);
@@ -134,8 +128,9 @@ fn gcd_ext_large(mut lhs: Buffer, mut rhs: Buffer) -> (Repr, Repr, Repr)
         lemma_valn_bound(res3.subrange(0, ll), ll);
         lemma_gcdo_divide(m, l, pow2(shift as int), val(res2), val(lc1), val(res3.subrange(ll, brhs_len + 1)), overflow as int,
             pw(brhs_len + 1 - ll), val(res3.subrange(0, ll)));
-        lemma_valn_ext(res3, res3.subrange(0, ll), ll);
-        lemma_gcdo_low_zero(res3, ll);
+        let t3 = res3.subrange(0, ll);
+        lemma_gcdo_low_zero_val(t3);
+        assert(t3[0] == res3[0]);
     } @*/
     let mut a = Buffer::from(&residue[lhs_len..]);
     debug_assert_eq!(residue[0], 0); // this division is an exact division
